@@ -68,6 +68,9 @@ func (o OType) node() *model.Node {
 		case i < len(o.Vals) && strings.HasPrefix(o.Vals[i], "obj+"):
 			// a nested object that inherits on its own
 			kid = model.Obj(model.R("allOf", model.Str(strings.TrimPrefix(o.Vals[i], "obj+")))).Add("inner", model.Scalar("integer", "1"))
+		case i < len(o.Vals) && strings.HasPrefix(o.Vals[i], "arr+"):
+			// an array whose item is an object that inherits on its own
+			kid = model.Arr().Item(model.Obj(model.R("allOf", model.Str(strings.TrimPrefix(o.Vals[i], "arr+")))).Add("inner", model.Scalar("integer", "1")))
 		case i < len(o.Vals) && strings.HasPrefix(o.Vals[i], "@"):
 			kid = model.Ref(o.Vals[i])
 		default:
@@ -138,8 +141,8 @@ func (m *merger) merge(name string, stack map[string]bool) []keyInfo {
 	stack[name] = true
 	// nested objects with their own allOf are separate inheriting objects
 	for i, k := range o.Keys {
-		if i < len(o.Vals) && strings.HasPrefix(o.Vals[i], "obj+") {
-			p := strings.TrimPrefix(o.Vals[i], "obj+")
+		if i < len(o.Vals) && (strings.HasPrefix(o.Vals[i], "obj+") || strings.HasPrefix(o.Vals[i], "arr+")) {
+			p := o.Vals[i][4:]
 			keys := []string{"inner"}
 			pt, ok := m.ts[p]
 			switch {
@@ -198,6 +201,99 @@ func (m *merger) merge(name string, stack map[string]bool) []keyInfo {
 	}
 	m.memo[name] = out
 	return out
+}
+
+// mark: one property of a compiled object with the type it is inherited from and, when its value is an
+// object (or an array of one object), the properties of that object
+type mark struct {
+	key, from string
+	arr       bool
+	kids      []mark
+	leaf      bool
+}
+
+// marks: the expected tree of an object type that merges without a defect. An inherited property is marked
+// with the parent it comes from; what is below it is a copy of what the parent holds.
+func (m *merger) marks(name string) []mark {
+	o := m.ts[name]
+	var out []mark
+	for i, k := range o.Keys {
+		v := ""
+		if i < len(o.Vals) {
+			v = o.Vals[i]
+		}
+		mk := mark{key: k, leaf: true}
+		switch {
+		case v == "obj":
+			mk.leaf = false
+			mk.kids = []mark{{key: "inner", leaf: true}}
+		case strings.HasPrefix(v, "obj+"), strings.HasPrefix(v, "arr+"):
+			mk.leaf = false
+			mk.arr = strings.HasPrefix(v, "arr+")
+			mk.kids = []mark{{key: "inner", leaf: true}}
+			for _, s := range m.marks(v[4:]) {
+				s.from = v[4:]
+				mk.kids = append(mk.kids, s)
+			}
+		}
+		out = append(out, mk)
+	}
+	for _, p := range o.AllOf {
+		for _, s := range m.marks(p) {
+			s.from = p
+			out = append(out, s)
+		}
+	}
+	return out
+}
+
+func marksString(ms []mark) string {
+	var sb strings.Builder
+	for i, k := range ms {
+		if i > 0 {
+			sb.WriteByte(',')
+		}
+		fmt.Fprintf(&sb, "%s<%s>", k.key, k.from)
+		if !k.leaf {
+			if k.arr {
+				sb.WriteString("[(" + marksString(k.kids) + ")]")
+			} else {
+				sb.WriteString("(" + marksString(k.kids) + ")")
+			}
+		}
+	}
+	return sb.String()
+}
+
+func (m *merger) marksText(name string) string { return "(" + marksString(m.marks(name)) + ")" }
+
+// renderMarks: the same text from the compiled tree
+func renderMarks(n ischema.Node) string {
+	switch x := n.(type) {
+	case *ischema.ObjectNode:
+		var sb strings.Builder
+		sb.WriteByte('(')
+		for i, ch := range x.Children() {
+			if i > 0 {
+				sb.WriteByte(',')
+			}
+			fmt.Fprintf(&sb, "%s<%s>%s", x.Key(i).Key, ch.InheritedFrom(), renderMarks(ch))
+		}
+		sb.WriteByte(')')
+		return sb.String()
+	case *ischema.ArrayNode:
+		var sb strings.Builder
+		sb.WriteByte('[')
+		for i, ch := range x.Children() {
+			if i > 0 {
+				sb.WriteByte(',')
+			}
+			sb.WriteString(renderMarks(ch))
+		}
+		sb.WriteByte(']')
+		return sb.String()
+	}
+	return ""
 }
 
 var refusalFamily = map[int]bool{402: true, 703: true, 704: true, 705: true, 1302: true}
@@ -389,8 +485,14 @@ func oracle(c Case) *ev.Verdict {
 		return ev.V("example:keys", "Example() keys %v, expected own + inherited %v\n%s", exObj.Keys, wantKeys, tp)
 	}
 	for i, k := range ts[inheriting].Keys {
-		if i < len(ts[inheriting].Vals) && strings.HasPrefix(ts[inheriting].Vals[i], "obj+") {
+		if i < len(ts[inheriting].Vals) && (strings.HasPrefix(ts[inheriting].Vals[i], "obj+") || strings.HasPrefix(ts[inheriting].Vals[i], "arr+")) {
 			sub := exObj.Get(k)
+			if strings.HasPrefix(ts[inheriting].Vals[i], "arr+") {
+				if sub == nil || sub.Kind != jsonv.Array || len(sub.Items) != 1 {
+					return ev.V("example:nested-keys", "the property %q is an array of one inheriting object: Example() has %s\n%s", k, exb, tp)
+				}
+				sub = sub.Items[0]
+			}
 			wantN := m.nested[inheriting+"."+k]
 			if sub == nil || sub.Kind != jsonv.Object || strings.Join(sub.Keys, ",") != strings.Join(wantN, ",") {
 				got := "<missing>"
@@ -413,6 +515,18 @@ func oracle(c Case) *ev.Verdict {
 	}
 	if strings.Join(req, ",") != strings.Join(wantReq, ",") {
 		return ev.V("compiled:required", "required keys %v, expected %v\n%s", req, wantReq, tp)
+	}
+	// the whole compiled tree: objects nested in an inherited property keep the marks they have in the parent
+	if got, want := renderMarks(node), m.marksText(inheriting); got != want {
+		return ev.V("compiled:marks-deep", "compiled tree key<InheritedFrom>(children): %s, expected %s\n%s", got, want, tp)
+	}
+	for _, t := range c.Types[1:] {
+		if t.Withheld || t.NonObj {
+			continue
+		}
+		if got, want := renderMarks(b.Types[t.Name].(*jschema.JSchema).Inner.RootNode()), m.marksText(t.Name); got != want {
+			return ev.V("compiled:marks-deep-type", "compiled tree of type %s key<InheritedFrom>(children): %s, expected %s\n%s", t.Name, got, want, tp)
+		}
 	}
 	// inheritance copies: every registered object type holds exactly its own merged keys
 	for _, t := range c.Types[1:] {
@@ -522,7 +636,7 @@ func genCase(t *rapid.T) Case {
 			case 1:
 				v = rapid.SampledFrom(names[1:]).Draw(t, nm+"valref")
 			case 2, 3:
-				v = "obj+" + rapid.SampledFrom(names[1:]).Draw(t, nm+"valnested")
+				v = rapid.SampledFrom([]string{"obj+", "obj+", "arr+"}).Draw(t, nm+"nestkind") + rapid.SampledFrom(names[1:]).Draw(t, nm+"valnested")
 			}
 			if wide && len(o.Vals) >= 2 && v != "" && v != "obj" {
 				// (Example() of a project with many mutually referring optional properties grows with the
